@@ -9,7 +9,7 @@ from ..prop import V, hx, unhx
 
 OPS = ["create", "create_bad", "create_again", "create_stored", "create_other", "server_wipe", "encrypt_empty", "gen_key", "encrypt", "upload_config", "upload_index", "search"]
 LEGAL = ["create", "gen_key", "encrypt", "upload_config", "upload_index", "search", "search"]
-BAD_CFG = ["unknown_scheme", "missing_param", "aes_key_20", "no_scheme"]
+BAD_CFG = ["unknown_scheme", "missing_param", "aes_key_20", "no_scheme", "scheme_lowercase", "scheme_trailing_space"]
 
 
 def flags_of(bits):
@@ -35,7 +35,7 @@ class C11(P.Property):
     real_stub = dict(deployment="real client Service + real server + websockets on the simulated loop/TCP; disk seam observing; no crash points (C13), but the server may be down for one command; wall clock (time.time) and file time stamps (os.stat) simulated: follow the virtual clock, steppable, per-run stamp granularity")
     assumptions = ["one service per run; operations before any create use an unknown sid"]
     probe_names = ["key_regen_refused", "encrypt_again_refused", "upload_before_create_refused", "search_before_upload_refused",
-                   "invalid_config_refused", "create_again_refused", "create_from_stored_config_refused", "reached_uploaded", "scheme_refused_input", "op_on_unknown_sid", "op_timed_out_under_stall", "service_deleted_on_server", "second_service_created", "via_commands", "create_with_taken_name_refused", "second_service_unusual_name", "network_op_while_server_down"]
+                   "invalid_config_refused", "create_again_refused", "create_from_stored_config_refused", "reached_uploaded", "scheme_refused_input", "op_on_unknown_sid", "op_timed_out_under_stall", "service_deleted_on_server", "second_service_created", "via_commands", "create_with_taken_name_refused", "second_service_unusual_name", "network_op_while_server_down", "upload_without_waiting", "cli_addressed_by_sid"]
 
     def setup(self):
         world.setup_frontend()
@@ -68,6 +68,8 @@ class C11(P.Property):
                 st["w"] = rng.choice(list(db) + [hx(b"absent")])
             if op in ("upload_config", "upload_index", "search") and rng.random() < 0.07:
                 st["down"] = True  # the server is not running when this command is issued
+            elif op in ("upload_config", "upload_index") and rng.random() < 0.2:
+                st["nowait"] = True  # the application does not wait for the acknowledgement (wait=False, the default) and looks again 45 s later
             steps.append(st)
         knobs = dict(scheme=scheme, db=db, net=rng.choice([dict(lo=0.001, hi=0.05), dict(lo=0.001, hi=0.05, seg=3), dict(lo=0.01, hi=0.3, seg=2)]),
                      skew=rng.choice([1.0, 1.0, 0.5, 2.0]), bufsize=rng.choice([8192, 8192, 16]), gc_every=rng.choice([0, 0, 1, 2]),
@@ -79,6 +81,7 @@ class C11(P.Property):
             # the wall clock is stepped before that step (NTP correction, VM resume): time.time() and new file stamps jump, loop time does not
             knobs["clock_steps"] = {str(rng.randrange(len(steps))): rng.choice([-3600.0, -5.0, -0.5, -3 * 86400.0, 3600.0, 9 * 86400.0])}
         if knobs["via_commands"]:
+            knobs["cli_by_sid"] = rng.random() < 0.5
             knobs.update(stall_step=None)
             for st_ in steps:
                 if st_["op"] in ("create_stored", "create_other", "create_again"):
@@ -115,6 +118,10 @@ class C11(P.Property):
             c["scheme"] = "No.Such"
         elif kind == "missing_param":
             c.pop(sorted(k for k in c if k.startswith("param_"))[0])
+        elif kind == "scheme_lowercase":
+            c["scheme"] = c["scheme"].lower()  # no scheme of that spelling can be loaded
+        elif kind == "scheme_trailing_space":
+            c["scheme"] = c["scheme"] + " "
         elif kind == "aes_key_20":
             for k in ("param_lambda", "param_k"):
                 if k in c:
@@ -258,16 +265,21 @@ class C11(P.Property):
                 if stalled:
                     # fault: the server's reply to this request is delayed beyond the client's 60 s patience
                     run.sim.stall_once = ("s", 70, 2 + 2 * (knobs["net"].get("seg", 1) > 1))
+                nowait = False
                 if op == "upload_config":
                     exp = F["cc"] and not F["cu"]
-                    r = await host.upload_config(cur)
+                    nowait = bool(st.get("nowait")) and exp and not down and not stalled
+                    r = await host.upload_config(cur, wait=not nowait)
                 elif op == "upload_index":
                     exp = F["cu"] and F["kc"] and F["de"] and not F["du"] and has_edb  # (the local index is deleted once its upload is acknowledged)
-                    r = await host.upload_index(cur)
+                    nowait = bool(st.get("nowait")) and exp and not down and not stalled
+                    r = await host.upload_index(cur, wait=not nowait)
                 else:
                     search_w = unhx(st.get("w", hx(b"absent")))
                     exp = F["du"]
                     r = await host.search(cur, search_w)
+                if nowait:
+                    probes["upload_without_waiting"] = 1
                 run.sim.stall_once = None
                 if down:
                     exp = False
@@ -332,7 +344,7 @@ class C11(P.Property):
                 elif op in ("upload_config", "upload_index"):
                     box = r[1][0]
                     ack = pickle.loads(box[0]) if box else None
-                    if not (isinstance(ack, dict) and ack.get("ok") is True):
+                    if not (isinstance(ack, dict) and ack.get("ok") is True) and not nowait:
                         viol.append(V("C11.order", "REFUSAL_MISMATCH", f"step {si}: {op} returned but the callback received {ack!r:.60}", site=op))
                         return
                     F["cu" if op == "upload_config" else "du"] = True
@@ -426,6 +438,13 @@ class C11(P.Property):
 
         weird_done = [False]
 
+        def addr():
+            # a service is addressed by its name or, with --sid, by its id
+            if knobs.get("cli_by_sid") and sid is not None:
+                probes["cli_addressed_by_sid"] = 1
+                return dict(sid=sid)
+            return dict(sname=sname)
+
         async def command(fn_name, *a, **kw):
             """one CLI invocation = one client process"""
             nproc[0] += 1
@@ -494,10 +513,10 @@ class C11(P.Property):
                 outcome, text = await command("create_service", bad_path, "bad-name-%d" % si)
                 exp = False
             elif op == "gen_key":
-                outcome, text = await command("generate_key", sname=sname)
+                outcome, text = await command("generate_key", **addr())
                 exp = F["cc"] and not F["kc"]
             elif op == "encrypt":
-                outcome, text = await command("encrypt_database", db_path, sname=sname)
+                outcome, text = await command("encrypt_database", db_path, **addr())
                 exp = F["cc"] and F["kc"] and not F["de"]
                 if exp and outcome == "refused":
                     try:
@@ -511,14 +530,14 @@ class C11(P.Property):
                     F["cu"], F["du"] = srv >= 1, srv == 2
                 if op == "upload_config":
                     exp = F["cc"] and not F["cu"]
-                    outcome, text = await command("upload_config", sname=sname)
+                    outcome, text = await command("upload_config", **addr())
                 elif op == "upload_index":
                     exp = F["cu"] and F["kc"] and F["de"] and not F["du"] and has_edb
-                    outcome, text = await command("upload_encrypted_database", sname=sname)
+                    outcome, text = await command("upload_encrypted_database", **addr())
                 else:
                     search_w = unhx(st.get("w", hx(b"absent")))
                     exp = F["du"]
-                    outcome, text = await command("search", search_w.decode(), "hex", sname=sname)
+                    outcome, text = await command("search", search_w.decode(), "hex", **addr())
                     if exp and "The result is" not in text and outcome == "accepted":
                         outcome = "refused"  # nothing was delivered
             else:
